@@ -389,6 +389,7 @@ def run(ctx):
     tgt = metaapp.func.value
     r4.check(isinstance(tgt, ast.Name) and tgt.id == "meta_children", "workbook_to_json:meta.entity.target",
              "the declaration is appended to the meta block's children", w2j.loc(metaapp))
+    meta_sealed_rule(ctx, r4, "C19.R4")
     # get_nsmap decision table
     nsf = ctx.func("pyxform.survey:Survey.get_nsmap", "C19.R4")
     base_ns = ctx.consts.get("pyxform.constants", "NSMAP", "C19.R4")
@@ -479,6 +480,28 @@ _NS_CASES = {
     'subentities="http://example.org/sub"': [("subentities", "http://example.org/sub")],
     'x="http://example.org/x" geo_entities="http://example.org/geo"': [("x", "http://example.org/x"), ("geo_entities", "http://example.org/geo")],
 }
+
+
+def meta_sealed_rule(ctx, rule_obj, rid):
+    """The meta block is assembled from `meta_children`; the group is created only if that list is non-empty at the
+    moment it is wrapped.  Every append to the list must therefore happen before the wrap (no append is reachable from
+    the emptiness test): an entity declaration / instanceID appended afterwards is silently lost when nothing else
+    was in the list."""
+    from .. import cfg as cfgmod
+    w2j = ctx.func("pyxform.xls2json:workbook_to_json", rid)
+    g = cfgmod.build(w2j.node.body)
+    def is_meta_list(name):
+        return name == "meta_children"
+    tests = [nid for nid, n in g.nodes.items() if n.kind == "test" and any(isinstance(x, ast.Name) and is_meta_list(x.id) for x in ast.walk(n.stmt))]
+    apps = [(nid, c) for nid, n in g.nodes.items() for c in cfgmod.calls_in(n.stmt)
+            if call_name(c) in ("append", "extend", "insert") and isinstance(c.func, ast.Attribute) and isinstance(c.func.value, ast.Name) and is_meta_list(c.func.value.id)]
+    rule_obj.check(len(tests) == 1 and len(apps) >= 3, "workbook_to_json:meta wrap", "one emptiness test wraps the meta children; instanceID / instanceName / entity / audit are appended to that list", w2j.loc(),
+                   why_fail=f"tests={len(tests)} appends={len(apps)}")
+    if len(tests) == 1:
+        after = g.reachable(tests[0], skip_labels=frozenset({"exc"}))
+        for nid, c in apps:
+            rule_obj.check(nid not in after or nid == tests[0], f"workbook_to_json:{norm(c)[:60]} before the meta wrap",
+                           "this append cannot happen after the meta group was (or was not) created", w2j.loc(c))
 
 
 def nsmap_table(ctx, rule):
